@@ -43,6 +43,18 @@ def run(tier):
         n_viol += 1
     elif mc["rc"] != 0:
         raise vlib.ToolError("TLC failed on MC_Sidecar")
+    # stores inherited from the pre-0.10 layout: every subset of keys starting as a legacy commit point
+    # (pointer without generation + data/<k>) or as an orphaned legacy payload
+    mcl = vlib.run_tlc("MC_Sidecar", f"MC_Sidecar_legacy_{tier}.cfg", wd, workers=12, timeout=2400, heap="14g",
+                       out_name="mcl.out", allow_violation=True)
+    vlib.log(f"[C08] X MC_Sidecar_legacy_{tier}.cfg: {mcl['states']} states, violated={mcl['violated']}")
+    if mcl["violated"]:
+        with open(mcl["out"], errors="replace") as f:
+            tail = f.read()[-5000:]
+        vlib.violation(PROP, {"property": PROP, "kind": "model", "cfg": f"MC_Sidecar_legacy_{tier}.cfg", "tail": tail})
+        n_viol += 1
+    elif mcl["rc"] != 0:
+        raise vlib.ToolError("TLC failed on MC_Sidecar (legacy cfg)")
     crash = _drive("crash", wd)
     gcc = _drive("gcconc", wd, env={"VERIF_CONC_CAP": "150" if tier == "quick" else "1500"})
     for name, st in (("crash", crash), ("gcconc", gcc)):
@@ -54,29 +66,38 @@ def run(tier):
                                   "trace": fl["trace"]})
             n_viol += 1
     cov = {
-        "states": mc["states"] + crash["states"] + gcc["states"],
-        "transitions": mc["generated"],
+        "states": mc["states"] + mcl["states"] + crash["states"] + gcc["states"],
+        "transitions": mc["generated"] + mcl["generated"],
         "traces_validated_against_impl": crash["traces"] + gcc["traces"],
         "evaluations": crash["traces"] + gcc["traces"],
         "distinct_nontrivial": crash["points"] + gcc["points"],
         "rule": "X: every interleaving of 2 writers (put / copy / delete on 2 keys) with the collector and crashes in "
-                "Sidecar.tla (PointerValid, Immutable in every state). T crash: for both wrappers and 4 operation "
-                "sequences (put, multipart, copy, rename, delete, collect_garbage) a power loss after EVERY inner "
+                "Sidecar.tla (PointerValid, Immutable in every state), and the same from every initial store "
+                "in which any subset of the keys is a legacy (pre-0.10) object or an orphaned legacy payload. T crash: "
+                "for both wrappers and 9 operation sequences (put, multipart, copy, rename, delete, collect_garbage; 5 "
+                "of them over hand-planted legacy objects: migration by overwrite, copy/rename from and onto legacy "
+                "keys, delete, orphans) a power loss after EVERY inner "
                 "mutation, then cold read+list of every key, collect_garbage, read again, write again. T gcconc: "
-                "collect_garbage interleaved with 1-2 in-process writers, all release orders of the parked inner calls "
+                "collect_garbage interleaved with 1-2 in-process writers (15 scenarios, 6 over legacy objects), all release orders of the parked inner calls "
                 "and call positions (capped), then cold read, another collection, cold read. distinct_nontrivial = "
                 "crash points + schedules",
         "samples": [{"crash_first_events": crash["sample"]}],
         "exhaustive": True,
         "model_checking": {"cfg": f"MC_Sidecar_{tier}.cfg", "states": mc["states"], "transitions": mc["generated"]},
+        "model_checking_legacy": {"cfg": f"MC_Sidecar_legacy_{tier}.cfg", "states": mcl["states"],
+                                  "transitions": mcl["generated"]},
         "crash_points": crash["points"],
         "gc_schedules": gcc["points"],
         "trace_events": crash["events"] + gcc["events"],
     }
     vlib.write_evidence(PROP, tier, "model_checking", cov, time.time() - t0, n_viol, assumptions=[
         "each inner-store mutation is atomic; multipart uploads are one inner mutation at complete",
-        "hand-built legacy (pre-0.10 data/<key>) objects are not exercised yet",
-        "the collector's time floor is modelled by minting order; the driver sleeps 2 ms before every collection",
+        "legacy (pre-0.10) objects are planted by the driver in the serialization shape of the crate's own tests "
+        "(MetaStore: s/e/o/v document; EncryptedStore: unauthenticated document, empty chunk AAD); sealed 0.9.x "
+        "documents without a generation are not planted",
+        "the collector's time floor is modelled by minting order in Sidecar.tla; in the traces a collected generation "
+        "must have been written by an operation called before the collector (the driver sleeps 2 ms before every "
+        "collection)",
     ])
     vlib.cleanup(wd)
     return n_viol
